@@ -16,7 +16,8 @@ def Live (p : Phase) : Prop := p = .authing ∨ p = .idle ∨ p = .queued ∨ p 
 
 /-- how the record of one client may change (`c` in state `s`, `d` in state `t`) -/
 structure CRel (s t : St) (c d : Cli) : Prop where
-  cred : d.cred = c.cred
+  /-- credentials are fixed, except that a client that connected without any may send them later -/
+  cred : d.cred = c.cred ∨ c.cred = .silent
   phase : d.phase = c.phase ∨ Live d.phase
   inst : d.inst = c.inst ∨ ∃ a, d.inst = some a ∧ s.nextInst ≤ a ∧ a < t.nextInst
   table : ∀ o ∈ d.table, o ∈ c.table ∨ (s.nextObj ≤ o ∧ o < t.nextObj)
@@ -62,7 +63,7 @@ structure Eff (s t : St) (T : Nat → Prop) : Prop where
     i = j ∨ (o ∈ (s.cli i).table ∧ o ∈ (s.cli j).table)
 
 theorem CRel.refl (s t : St) (c : Cli) : CRel s t c c :=
-  ⟨rfl, Or.inl rfl, Or.inl rfl, fun _ h => Or.inl h⟩
+  ⟨Or.inl rfl, Or.inl rfl, Or.inl rfl, fun _ h => Or.inl h⟩
 
 theorem Eff.refl (s : St) (T : Nat → Prop) : Eff s s T :=
   ⟨rfl, fun _ _ => ⟨rfl, rfl, rfl, rfl, rfl⟩, fun _ _ h _ => h, Nat.le_refl _, Nat.le_refl _,
@@ -91,7 +92,12 @@ theorem Eff.mono {s t : St} {T T' : Nat → Prop} (e : Eff s t T) (h : ∀ j, T 
 
 theorem CRel.trans {s t u : St} {c d e' : Cli} (h1 : CRel s t c d) (h2 : CRel t u d e') (hI : s.nextInst ≤ t.nextInst)
     (hI' : t.nextInst ≤ u.nextInst) (hO : s.nextObj ≤ t.nextObj) (hO' : t.nextObj ≤ u.nextObj) : CRel s u c e' := by
-  refine ⟨h2.cred.trans h1.cred, ?_, ?_, ?_⟩
+  refine ⟨?_, ?_, ?_, ?_⟩
+  · rcases h1.cred with h | h
+    · rcases h2.cred with h' | h'
+      · exact Or.inl (h'.trans h)
+      · exact Or.inr (h ▸ h')
+    · exact Or.inr h
   · rcases h2.phase with h | h
     · rcases h1.phase with h' | h'
       · exact Or.inl (h.trans h')
@@ -124,7 +130,10 @@ theorem Eff.trans {s t u : St} {T T' : Nat → Prop} (e1 : Eff s t T) (e2 : Eff 
     rcases h1 with h1 | h1 | h1
     · exact Or.inl (by rw [hk]; exact h1)
     · exact Or.inr (Or.inl (by rw [hk]; exact h1))
-    · exact Or.inr (Or.inr (fun j => by rw [(e1.cli j).cred]; exact h1 j))
+    · refine Or.inr (Or.inr (fun j => ?_))
+      rcases (e1.cli j).cred with h | h
+      · rw [h]; exact h1 j
+      · exact absurd h (h1 j)
   · intro j; exact (e1.cli j).trans (e2.cli j) e1.nI e2.nI e1.nO e2.nO
   · intro j hj hq
     refine (e1.frame j (fun h => hj (Or.inl h)) hq).trans (e2.frame j (fun h => hj (Or.inr h)) ?_)
@@ -194,14 +203,14 @@ theorem EffC.map (s t : St) (f : Cli → Cli) (hc : ∀ c, (f c).cred = c.cred)
   have hcli : ∀ j, t.cli j = f (s.cli j) := fun j => by rw [e4]; rfl
   refine ⟨e1, by omega, by omega, ?_, fun j hj => absurd trivial hj, ?_, ?_⟩
   · intro j; rw [hcli]
-    exact ⟨hc _, hp _, Or.inl (hi _), fun o ho => Or.inl (ht _ o ho)⟩
+    exact ⟨Or.inl (hc _), hp _, Or.inl (hi _), fun o ho => Or.inl (ht _ o ho)⟩
   · intro _ i j a h1 h2
     rw [hcli, hi] at h1 h2; exact Or.inr ⟨h1, h2⟩
   · intro _ i j o h1 h2
     rw [hcli] at h1 h2; exact Or.inr ⟨ht _ o h1, ht _ o h2⟩
 
 /-- one record rewritten: same credentials and instance, phase kept or moved forward, table not grown -/
-theorem Eff.set1 (s t : St) (k : Nat) (c' : Cli) (hcred : c'.cred = (s.cli k).cred)
+theorem Eff.set1' (s t : St) (k : Nat) (c' : Cli) (hcred : c'.cred = (s.cli k).cred ∨ (s.cli k).cred = .silent)
     (hph : c'.phase = (s.cli k).phase ∨ Live c'.phase) (hinst : c'.inst = (s.cli k).inst)
     (htab : ∀ o ∈ c'.table, o ∈ (s.cli k).table)
     (e1 : t.cfg = s.cfg) (e2 : t.listening = s.listening) (e3 : t.active = s.active)
@@ -226,6 +235,15 @@ theorem Eff.set1 (s t : St) (k : Nat) (c' : Cli) (hcred : c'.cred = (s.cli k).cr
   · intro _ i j a h1 h2; rw [hinst'] at h1 h2; exact Or.inr ⟨h1, h2⟩
   · intro _ i j o h1 h2; exact Or.inr ⟨htab' i o h1, htab' j o h2⟩
 
+
+theorem Eff.set1 (s t : St) (k : Nat) (c' : Cli) (hcred : c'.cred = (s.cli k).cred)
+    (hph : c'.phase = (s.cli k).phase ∨ Live c'.phase) (hinst : c'.inst = (s.cli k).inst)
+    (htab : ∀ o ∈ c'.table, o ∈ (s.cli k).table)
+    (e1 : t.cfg = s.cfg) (e2 : t.listening = s.listening) (e3 : t.active = s.active)
+    (e4 : t.acceptAlive = s.acceptAlive) (e5 : t.closedFlag = s.closedFlag) (e6 : t.poolUp = s.poolUp)
+    (e7 : t.acceptBusy = s.acceptBusy) (e8 : t.nextInst = s.nextInst) (e9 : t.nextObj = s.nextObj)
+    (e10 : t.cli = (s.set k c').cli) (e11 : t.queue = s.queue) : Eff s t (· = k) :=
+  Eff.set1' s t k c' (Or.inl hcred) hph hinst htab e1 e2 e3 e4 e5 e6 e7 e8 e9 e10 e11
 
 /-- the same, with the accept thread possibly becoming occupied (`hb` = why the busy clause still holds) -/
 theorem Eff.set1B (s t : St) (k : Nat) (c' : Cli) (hcred : c'.cred = (s.cli k).cred)
@@ -260,7 +278,7 @@ theorem Eff.setServe (s t : St) (k : Nat) (c' : Cli) (n' : Nat) (hcred : c'.cred
     fun j hj _ => Or.inl (hcli j hj), fun j hj => Or.inl (e11 ▸ hj), fun _ j hj _ => hcli j hj, ?_, ?_⟩
   · intro j; by_cases hj : j = k
     · subst hj; rw [hk]
-      exact ⟨hcred, hph, Or.inl hinst, fun o ho => by rw [e9]; exact htab o ho⟩
+      exact ⟨Or.inl hcred, hph, Or.inl hinst, fun o ho => by rw [e9]; exact htab o ho⟩
     · rw [hcli j hj]; exact CRel.refl _ _ _
   · intro _ i j a h1 h2; rw [hinst'] at h1 h2; exact Or.inr ⟨h1, h2⟩
   · intro b i j o h1 h2
@@ -284,7 +302,7 @@ theorem built_eff (s : St) (k : Nat) : Eff s (built s k) (· = k) := by
     fun j hj _ => Or.inl (hcli j hj), fun j hj => Or.inl hj, fun _ j hj _ => hcli j hj, ?_, ?_⟩
   · intro j; by_cases hj : j = k
     · subst hj
-      refine ⟨by simp [built], Or.inr (by simp [built, Live]), Or.inr ⟨s.nextInst, hk, Nat.le_refl _, by simp [built]⟩, ?_⟩
+      refine ⟨Or.inl (by simp [built]), Or.inr (by simp [built, Live]), Or.inr ⟨s.nextInst, hk, Nat.le_refl _, by simp [built]⟩, ?_⟩
       intro o ho; left; simpa [built] using ho
     · rw [hcli j hj]; exact CRel.refl _ _ _
   · intro b i j a h1 h2
@@ -326,6 +344,7 @@ theorem answer_served (c : Cli) (seq : Nat) (r : ReqKind) (n : Nat) :
   cases r with
   | ping => exact ⟨rfl, rfl, Nat.le_refl _, fun o ho => Or.inl ho⟩
   | probe oid => exact ⟨rfl, rfl, Nat.le_refl _, fun o ho => Or.inl ho⟩
+  | drop oid => exact ⟨rfl, rfl, Nat.le_refl _, fun o ho => Or.inl (List.mem_filter.mp ho).1⟩
   | lend =>
     refine ⟨rfl, rfl, Nat.le_succ _, ?_⟩
     intro o ho
@@ -448,7 +467,7 @@ theorem Eff.mapSame (s t : St) (f : Cli → Cli) (hs : ∀ c, Same c (f c)) (hk 
     · rw [e7]; exact h
   · intro j; rw [hcli]
     refine ⟨?_, Or.inl (hs _).phase, Or.inl (hi _), fun o ho => Or.inl (by rw [← ht]; exact ho)⟩
-    rcases hs (s.cli j) with h | h <;> rw [h]
+    rcases hs (s.cli j) with h | h <;> rw [h] <;> exact Or.inl rfl
   · intro j _ _; rw [hcli]; exact hs _
   · intro _ i j a h1 h2
     rw [hcli, hi] at h1 h2; exact Or.inr ⟨h1, h2⟩
@@ -522,7 +541,7 @@ theorem EffC.set1 (s t : St) (k : Nat) (c' : Cli) (hcred : c'.cred = (s.cli k).c
     · rw [hcli j hj] at ho; exact ho
   refine ⟨e1, by omega, by omega, ?_, fun j hj => Or.inl (hcli j hj), ?_, ?_⟩
   · intro j; by_cases hj : j = k
-    · subst hj; rw [hk]; exact ⟨hcred, hph, Or.inl hinst, fun o ho => Or.inl (htab o ho)⟩
+    · subst hj; rw [hk]; exact ⟨Or.inl hcred, hph, Or.inl hinst, fun o ho => Or.inl (htab o ho)⟩
     · rw [hcli j hj]; exact CRel.refl _ _ _
   · intro _ i j a h1 h2; rw [hinst'] at h1 h2; exact Or.inr ⟨h1, h2⟩
   · intro _ i j o h1 h2; exact Or.inr ⟨htab' i o h1, htab' j o h2⟩
@@ -571,6 +590,8 @@ theorem release_eff (s : St) (k : Nat) : Eff s (s.set k (release (s.cli k))) (·
 theorem authServe_eff (s : St) (k : Nat) : Eff s (authServe s k) (Tk s k) := by
   unfold authServe
   split
+  · exact ((release_eff s k).trans (afterEnd_eff _ k)).mono (Tk_or rfl)
+  split
   · split
     · exact serveClient_eff s k
     · exact ((release_eff s k).trans (afterEnd_eff _ k)).mono (Tk_or rfl)
@@ -579,6 +600,7 @@ theorem authServe_eff (s : St) (k : Nat) : Eff s (authServe s k) (Tk s k) := by
       · exact (Eff.set1 s (s.set k { s.cli k with phase := .authing }) k { s.cli k with phase := .authing } rfl
           (Or.inr (by simp [Live])) rfl (fun _ h => h) rfl rfl rfl rfl rfl rfl rfl rfl rfl rfl rfl).mono
           (fun j hj => Or.inl hj)
+    · exact ((release_eff s k).trans (afterEnd_eff _ k)).mono (Tk_or rfl)
   · exact serveClient_eff s k
 
 /-! #### pool -/
@@ -657,6 +679,8 @@ theorem poolBuild_eff (s : St) (k : Nat) (hk : s.cfg.kind = .pool) : Eff s (pool
 theorem poolAccept_eff (s : St) (k : Nat) (hk : s.cfg.kind = .pool) : Eff s (poolAccept s k) (· = k) := by
   unfold poolAccept
   split
+  · exact ((release_eff s k).trans (untrackAll_eff _ hk)).mono (fun j hj => hj.elim id (fun h => absurd h id))
+  split
   · split
     · exact poolBuild_eff s k hk
     · exact ((release_eff s k).trans (untrackAll_eff _ hk)).mono (fun j hj => hj.elim id (fun h => absurd h id))
@@ -671,6 +695,7 @@ theorem poolAccept_eff (s : St) (k : Nat) (hk : s.cfg.kind = .pool) : Eff s (poo
         · rw [hk] at h1; cases h1
         · rw [hk] at h1; cases h1
         · exact absurd hsil (h1 k)
+    · exact ((release_eff s k).trans (untrackAll_eff _ hk)).mono (fun j hj => hj.elim id (fun h => absurd h id))
   · exact poolBuild_eff s k hk
 
 /-! #### the accept loop and the client actions -/
@@ -808,6 +833,56 @@ theorem send_eff (s : St) (k : Nat) (l : List Item) : Eff s (send s k l) (Tw s k
   · have e1 := inbox_eff s k { s.cli k with inbox := (s.cli k).inbox ++ l } rfl rfl rfl rfl
     exact (e1.trans (wake_eff _ k)).mono' (Tw_or e1)
 
+/-- late credentials: the record of a client that had sent none -/
+theorem cred_eff (s : St) (k : Nat) (c : Cred) (h : (s.cli k).cred = .silent) :
+    Eff s (s.set k { s.cli k with cred := c }) (· = k) :=
+  Eff.set1' s _ k { s.cli k with cred := c } (Or.inr h) (Or.inl rfl) rfl (fun _ h => h)
+    rfl rfl rfl rfl rfl rfl rfl rfl rfl rfl rfl
+
+theorem poolAuthDone_eff (s : St) (k : Nat) (hk : s.cfg.kind = .pool) : Eff s (poolAuthDone s k) (Tw s k) := by
+  unfold poolAuthDone
+  have e1 := poolBuild_eff s k hk
+  have e2 : Eff (poolBuild s k) { (poolBuild s k) with acceptBusy := none } (fun _ => False) :=
+    Eff.mapSame _ _ id (fun _ => Or.inl rfl) (by rw [e1.cfg]; exact hk) rfl rfl rfl rfl rfl rfl (Or.inl rfl) rfl rfl
+      rfl rfl
+  have e12 := e1.trans e2
+  refine (e12.trans (acceptAll_eff _ _)).mono' ?_
+  intro j hj
+  rcases hj with (hj | hj) | hj
+  · exact Or.inl (Or.inl hj)
+  · exact absurd hj id
+  · rcases hj with hj | hj
+    · by_cases hjk : j = k
+      · exact Or.inl (Or.inl hjk)
+      · by_cases hq : j ∈ s.queue
+        · exact Or.inr hq
+        · left; right; left
+          have := (e12.frame j (by intro h; rcases h with h | h <;> first | exact hjk h | exact h) hq).phase
+          rw [← this]; exact hj
+    · left; right; right; rw [← e12.cfg]; exact hj
+
+theorem supply_eff (s : St) (k : Nat) (c : Cred) (h : (s.cli k).cred = .silent) : Eff s (supply s k c) (Tw s k) := by
+  have ec := cred_eff s k c h
+  have lift : ∀ {u : St}, Eff (s.set k { s.cli k with cred := c }) u (Tw (s.set k { s.cli k with cred := c }) k) →
+      Eff s u (Tw s k) := fun e => (ec.trans e).mono' (Tw_or ec)
+  unfold supply
+  split
+  · exact ec.mono (fun j hj => Or.inl hj)
+  · split
+    · split
+      · rename_i hk
+        split
+        · exact lift (poolAuthDone_eff _ k (by simpa using hk))
+        · exact lift (poolAuthGone_eff _ k (by simpa using hk))
+      · split
+        · exact lift ((serveClient_eff _ k).mono (fun j hj => hj.elim Or.inl (fun h => Or.inr (Or.inr h))))
+        · refine ((Eff.set1' s (s.set k (release { s.cli k with cred := c })) k (release { s.cli k with cred := c })
+            (Or.inr h) (Or.inr (by simp [Live])) rfl (fun _ h => h) rfl rfl rfl rfl rfl rfl rfl rfl rfl rfl rfl).trans
+            (afterEnd_eff _ k)).mono ?_
+          intro j hj
+          exact (Tk_or (s := s) rfl j hj).elim Or.inl (fun h => Or.inr (Or.inr h))
+    · exact ec.mono (fun j hj => Or.inl hj)
+
 /-- who an action is about -/
 def Op.client : Op → Option Nat
   | .connect k _ => some k
@@ -816,10 +891,12 @@ def Op.client : Op → Option Nat
   | .gracefulClose k => some k
   | .abruptClose k => some k
   | .serverClose => none
+  | .creds k _ => some k
 
 /-- the state right after a new connection has joined the listen queue, before the accept loop looks -/
 def joined (s : St) (k : Nat) (cred : Cred) : St :=
-  { (s.set k { cred := cred, phase := .backlog, clientOpen := true }) with ids := s.ids ++ [k] }
+  { (s.set k { cred := cred, phase := .backlog, clientOpen := cred != .reset,
+               inbox := if cred = .reset then [.fin] else [] }) with ids := s.ids ++ [k] }
 
 theorem step_connect {s t : St} {o : Obs} {k : Nat} {cred : Cred} (h : step s (.connect k cred) = .ok (t, o)) :
     (t = s ∧ o = .refused ∧ s.listening = false) ∨
@@ -889,5 +966,20 @@ theorem step_eff {s t : St} {o : Obs} (op : Op) (hop : op ≠ .serverClose) (hco
     · simp only [Except.ok.injEq, Prod.mk.injEq] at h
       obtain ⟨rfl, _⟩ := h
       exact key k _ _ rfl rfl rfl rfl
+  | creds k c =>
+    simp only [step] at h
+    split at h
+    · cases h
+    · rename_i hg
+      simp only [Except.ok.injEq, Prod.mk.injEq] at h
+      obtain ⟨rfl, _⟩ := h
+      have hsil : (s.cli k).cred = .silent := by
+        cases hc : (s.cli k).cred <;> simp [hc] at hg ⊢
+      refine (supply_eff s k c hsil).mono ?_
+      intro j hj
+      rcases hj with hj | hj | hj
+      · exact Or.inl (by rw [hj]; rfl)
+      · exact Or.inr (Or.inl hj)
+      · exact Or.inr (Or.inr hj)
 
 end Rpyc.Srv
